@@ -99,6 +99,16 @@ CHECKS = {
         'blocks, None placeholders and trailing axes.',
    note='Trusted: z3, symsparse stub, scipy LinearOperator dispatch, reals for doubles. Not applicable part: solver factories (LAPACK/SuperLU/eigh behind FFI).',
    technique='symbolic execution of real Python source on object arrays + z3 (polynomial identities)'),
+ 'C18': dict(
+   category='other', design_ref='4/C18',
+   text='Bounded symbolic verification (homomorphism): tensor.py is exec\'d from source and canonical, Tucker, sum and product tensors and Kronecker-rank '
+        'operators are built from symbolic entries; z3 proves that +, -, negation, format conversion (both directions), basis joining, mode products incl. None '
+        'placeholders, padding, squeezing, operator apply/compose/transpose/kron/slice/asmatrix and the canonical norm (on the argument of the square root) '
+        'commute with expansion to the full array; indexing is checked for every index expression of a bounded family (negative ints, slices with '
+        'start/stop/step in [-3,3] or None, index lists, missing trailing axes; concretised by solver-driven forking) against numpy indexing of the expanded '
+        'array; TensorGenerator returns exactly the wrapped entries; rank_1_update / aca3d_update kernels (transliterated) equal their definitions.',
+   note='Trusted: z3, symsparse stub, numpy indexing as the oracle for index expressions, reals for doubles. Not applicable part: QR/SVD based operations and ACA/ALS/GTA.',
+   technique='symbolic execution of real Python source on object arrays + z3; index expressions by exhaustive solver-driven forking'),
 }
 
 NA = {
